@@ -3,7 +3,7 @@ leaves a HALF-WRITTEN module at the module path; os.write()'s return value
 is ignored and the truncated temp file is moved into place."""
 import os, sys, tempfile, resource, signal, subprocess
 
-d = tempfile.mkdtemp(dir="/tmp/hunt_c15_out")
+d = tempfile.mkdtemp()
 src = os.path.join(d, "t.html")
 mods = os.path.join(d, "mods")
 open(src, "w").write("".join("line %d ${x}\n" % i for i in range(200)))
